@@ -932,5 +932,6 @@ func TestVerifC11(t *testing.T) {
 			sum[k+"_cases"], sum[k+"_loads"], sum[k+"_evals"], sum[k+"_nontrivial"], sum[k+"_skipped"], sum[k+"_samples"] = r.cases, r.loads, r.evals, r.non, r.skipped, r.samples
 		}
 	}
+	sum["source_reruns"] = atomic.LoadInt64(&c11Reruns)
 	verifx.Summary(sum)
 }
